@@ -8,7 +8,7 @@ LEVEL = "exploration"
 RULE = ("generated DNA strands of 1-120 nucleotides (linear with 5'/3' terminal names, circular without) "
         "built as residue graphs directly, through .ig files, and through gen_params -dsdna with a generated "
         "12-block DNA force field; complement_dsDNA is compared with an independent model (pairing table, "
-        "mirrored order, 5'<->3' exchange, copied edge labels, strands not bridged, circular closing edge) and "
+        "mirrored order, 5'<->3' exchange, copied edge labels (one or two per edge), strands not bridged, circular closing edge) and "
         "complementing the extracted second strand must return the original names; negative cases replace one "
         "name by an unknown one and must raise. non-trivial = n>=3 with >=3 distinct bases; distinct = spec hash")
 ASSUMPTIONS = ["KeyError and IOError both count as rejection of an unknown residue name"]
